@@ -18,7 +18,9 @@ import (
 	"math/rand"
 	"testing"
 
+	"github.com/icon-project/goloop/common"
 	"github.com/icon-project/goloop/common/codec"
+	"github.com/icon-project/goloop/common/crypto"
 	"github.com/icon-project/goloop/common/wallet"
 	"github.com/icon-project/goloop/consensus"
 	"github.com/icon-project/goloop/module"
@@ -45,12 +47,16 @@ func (m amsg) key() string {
 	return k
 }
 
+const badNid = 9 // DoubleSign.tla BadNid: the nil vote's network field does not decode
+
 type step struct {
 	Op  string `json:"op"`
 	M   amsg   `json:"m"`
 	M2  amsg   `json:"m2"`
 	Old amsg   `json:"old"`
 	Ev  bool   `json:"ev"`
+	D   string `json:"d"`
+	Res string `json:"res"`
 }
 
 type input struct {
@@ -66,16 +72,17 @@ type world struct {
 	out        *tlaio.Out
 	perKey     map[string]int
 	suppressed int
-	wallets map[string]module.Wallet
-	h0      int64
-	r0      int32
-	nids    [3]uint32
-	ts0     int64
-	bid     map[string][]byte
-	psid    map[string]*consensus.PartSetID
-	nts     [3][]module.NTSHashEntryFormat // unsigned BTP vote bases for u = 1, 2
-	ntsp    [3][][]byte                    // and their proof parts
-	cache   map[string]*cmsg
+	wallets    map[string]module.Wallet
+	h0         int64
+	r0         int32
+	nids       [3]uint32
+	ts0        int64
+	bid        map[string][]byte
+	psid       map[string]*consensus.PartSetID
+	nts        [3][]module.NTSHashEntryFormat // unsigned BTP vote bases for u = 1, 2
+	ntsp       [3][][]byte                    // and their proof parts
+	badNid     []byte
+	cache      map[string]*cmsg
 }
 
 type cmsg struct {
@@ -123,6 +130,10 @@ func newWorld(rnd *rand.Rand) *world {
 		w.psid["yp"] = w.psid["y"]
 	}
 	w.psid["xp"] = w.psid["x"]
+	w.badNid = [][]byte{{}, {0xc1, 0x01}, {0xb8}, rb(40)}[rnd.Intn(4)]
+	if len(w.badNid) == 40 {
+		w.badNid[0] = 0xf9 // a list header announcing more than is there
+	}
 	// the unsigned part of a precommit: u = 1 one BTP vote base with a proof part; u = 2 differs from it in the
 	// section hash, in the network type id, in the number of entries, or only in the proof part
 	h1 := rb(32)
@@ -179,7 +190,10 @@ func (w *world) conc(a amsg) (*cmsg, error) {
 	c := &cmsg{a: a}
 	h := w.h0 + int64(a.Height)
 	r := w.r0 + int32(a.Round)
-	nid := w.nids[a.Nid]
+	var nid uint32
+	if a.Nid < badNid {
+		nid = w.nids[a.Nid]
+	}
 	switch a.Kind {
 	case "prevote", "precommit":
 		vt := consensus.VoteTypePrevote
@@ -190,7 +204,11 @@ func (w *world) conc(a amsg) (*cmsg, error) {
 		var vm *consensus.VoteMessage
 		if a.Body == "nil" {
 			// a nil vote carries the network id in place of the block id and no part-set id
-			vm = consensus.NewVoteMessage(w.wallet(a.Signer), vt, h, r, codec.MustMarshalToBytes(int(nid)), nil, ts, nil, nil, 0)
+			bid := codec.MustMarshalToBytes(int(nid))
+			if a.Nid == badNid {
+				bid = w.badNid // bytes that do not decode as a network id
+			}
+			vm = consensus.NewVoteMessage(w.wallet(a.Signer), vt, h, r, bid, nil, ts, nil, nil, 0)
 		} else {
 			vm = consensus.NewVoteMessage(w.wallet(a.Signer), vt, h, r, w.bid[a.Body], w.psid[a.Body], ts, nil, nil, 0)
 			vm.BlockPartSetIDAndNTSVoteCount = w.psid[a.Body].WithAppData(uint64(nid) << 16)
@@ -275,7 +293,7 @@ func class(a, b amsg) string {
 		return p + "different-heights"
 	case a.Round != b.Round:
 		return p + "different-rounds"
-	case a.Nid != 0 && b.Nid != 0 && a.Nid != b.Nid:
+	case a.Nid != 0 && b.Nid != 0 && a.Nid != badNid && b.Nid != badNid && a.Nid != b.Nid:
 		return p + "different-nonzero-nids"
 	case a == b:
 		return p + "identical-messages"
@@ -292,7 +310,7 @@ func signed(a amsg) amsg {
 
 func (w *world) describe(c *cmsg) map[string]interface{} {
 	return map[string]interface{}{"abstract": c.a, "type": c.dst, "bytes": fmt.Sprintf("%x", c.bytes),
-		"nid": w.nids[c.a.Nid]}
+		"nid": c.a.Nid}
 }
 
 func (w *world) runRow(out *tlaio.Out, id string, in *input, alphabet []amsg) error {
@@ -367,6 +385,68 @@ func (w *world) runBehaviour(out *tlaio.Out, id string, steps []step) error {
 				return nil
 			}
 			nontrivial = nontrivial || s.Ev
+		case "decode":
+			c, err := w.conc(s.M)
+			if err != nil {
+				return err
+			}
+			bs := append([]byte{}, c.bytes...)
+			dst := c.dst
+			switch s.D {
+			case "trunc":
+				bs = bs[:1+(len(bs)-2)*(1+s.M.Aux)/4]
+			case "unknowntype":
+				dst = "precommit"
+			case "wrongtype":
+				if dst == module.DSTVote {
+					dst = module.DSTProposal
+				} else {
+					dst = module.DSTVote
+				}
+			case "badsig":
+				// the same message with a signature from which no key can be recovered (r = s = 0)
+				em, err := w.toEngineMsg(c)
+				if err != nil {
+					return err
+				}
+				zero, err := crypto.ParseSignature(make([]byte, 65))
+				if err != nil {
+					return err
+				}
+				switch m := em.(type) {
+				case *consensus.VoteMessage:
+					m.Signature = common.Signature{Signature: zero}
+					bs = codec.BC.MustMarshalToBytes(m)
+				case *consensus.ProposalMessage:
+					m.Signature = common.Signature{Signature: zero}
+					bs = codec.BC.MustMarshalToBytes(m)
+				}
+			default:
+				return fmt.Errorf("unknown defect %q", s.D)
+			}
+			w.out.Begin(id, "dsdecode:crash:"+s.D)
+			var derr error
+			var dd module.DoubleSignData
+			panicked := ""
+			func() {
+				defer func() {
+					if r := recover(); r != nil {
+						panicked = fmt.Sprint(r)
+					}
+				}()
+				dd, derr = consensus.DecodeDoubleSignData(dst, bs)
+			}()
+			sig += "d" + s.D + s.M.key() + ";"
+			det := map[string]interface{}{"behaviour": steps, "bytes": fmt.Sprintf("%x", bs), "type": dst, "spec": s.Res, "real": fmt.Sprint(derr)}
+			switch {
+			case panicked != "":
+				w.violation(id, "dsdecode:panic:"+s.D, fmt.Sprintf("DecodeDoubleSignData panics on %s of %s: %s", s.D, s.M.key(), panicked), det)
+				return nil
+			case derr == nil && s.Res == "error":
+				w.violation(id, "dsdecode:accepted:"+s.D, fmt.Sprintf("DecodeDoubleSignData accepts %s of %s as double-sign data", s.D, s.M.key()), det)
+				_ = dd
+				return nil
+			}
 		case "recv":
 			c, err := w.conc(s.M)
 			if err != nil {
